@@ -12,6 +12,8 @@
   hdr     ct-first  Content-Type, Content-Transfer-Encoding, Content-Location   (Chrome order)
           ct-last   Content-Location, Content-Transfer-Encoding, Content-Type   (IE / Word order)
   eol     "\r\n" | "\n"  line terminator of the whole file (the html's own "\n" become eol for 7bit/none)
+  root    media type the root document is labelled with (default text/html; RFC 2557 allows any type for the root of a
+          multipart/related, e.g. application/xhtml+xml; the `type=` parameter of the multipart/related follows it)
 
 Every multipart level has its own boundary; no line of any generated payload starts with a boundary delimiter
 (callers must not put "--" + BOUNDARY_STEM into the html). `validate()` parses the result with the stdlib e-mail
@@ -39,7 +41,7 @@ def _bnd(level: int) -> str:
     return f"{BOUNDARY_STEM}{level}_VERIF.{level}"
 
 
-def _html_leaf(html: str, enc: str, hdr: str, cid: bool) -> list:
+def _html_leaf(html: str, enc: str, hdr: str, cid: bool, root: str = "text/html") -> list:
     """header lines + '' + payload lines of the text/html leaf (lines without terminator)."""
     raw = html.encode("utf-8")
     if enc == "base64":
@@ -50,7 +52,7 @@ def _html_leaf(html: str, enc: str, hdr: str, cid: bool) -> list:
         payload = html
     else:
         raise ValueError(enc)
-    ct = 'Content-Type: text/html; charset="utf-8"'
+    ct = f'Content-Type: {root}; charset="utf-8"'
     cte = [] if enc == "none" else [f"Content-Transfer-Encoding: {enc}"]
     loc = "Content-Location: http://h/p.html"
     idl = ["Content-ID: <root@verif>"] if cid else []
@@ -87,23 +89,25 @@ def _multi(subtype: str, level: int, parts: list, params: str = "") -> list:
     return out
 
 
-def mhtml_tree(html: str, shape: str = "rel", enc: str = "7bit", hdr: str = "ct-first", eol: str = "\r\n") -> bytes:
+def mhtml_tree(html: str, shape: str = "rel", enc: str = "7bit", hdr: str = "ct-first", eol: str = "\r\n",
+               root: str = "text/html") -> bytes:
     top = ["From: <Saved by verif>", "Subject: page", "Date: Thu, 1 Jan 2026 00:00:00 +0000", "MIME-Version: 1.0"]
-    h = _html_leaf(html, enc, hdr, cid=(shape == "rel-last"))
+    h = _html_leaf(html, enc, hdr, cid=(shape == "rel-last"), root=root)
+    tp = f'; type="{root}"'
     if shape == "single":
         body = h
     elif shape == "rel":
-        body = _multi("related", 0, [h, _img_leaf()], '; type="text/html"')
+        body = _multi("related", 0, [h, _img_leaf()], tp)
     elif shape == "rel-last":
-        body = _multi("related", 0, [_img_leaf(), h], '; type="text/html"; start="<root@verif>"')
+        body = _multi("related", 0, [_img_leaf(), h], tp + '; start="<root@verif>"')
     elif shape == "rel-alt":
         alt = _multi("alternative", 1, [_plain_leaf("plain rendition"), h])
         body = _multi("related", 0, [alt, _img_leaf()], '; type="multipart/alternative"')
     elif shape == "alt-rel":
-        rel = _multi("related", 1, [h, _img_leaf()], '; type="text/html"')
+        rel = _multi("related", 1, [h, _img_leaf()], tp)
         body = _multi("alternative", 0, [_plain_leaf("plain rendition"), rel])
     elif shape == "mix-rel":
-        rel = _multi("related", 1, [h, _img_leaf()], '; type="text/html"')
+        rel = _multi("related", 1, [h, _img_leaf()], tp)
         body = _multi("mixed", 0, [rel, _plain_leaf("attached note", attachment=True)])
     else:
         raise ValueError(shape)
@@ -116,7 +120,7 @@ def mhtml_tree(html: str, shape: str = "rel", enc: str = "7bit", hdr: str = "ct-
     return eol.join(lines).encode("utf-8")
 
 
-def validate(data: bytes, html: str) -> list:
+def validate(data: bytes, html: str, root: str = "text/html") -> list:
     """Independent reading with the stdlib e-mail package; returns a list of problems (empty = the file says what we meant)."""
     import email
     import email.policy
@@ -126,10 +130,13 @@ def validate(data: bytes, html: str) -> list:
     for p in msg.walk():
         if p.defects:
             probs.append(f"defects in {p.get_content_type()}: {[type(d).__name__ for d in p.defects]}")
-    hl = [p for p in leaves if p.get_content_type() == "text/html"]
+    hl = [p for p in leaves if p.get_content_type() == root.lower()]
     if len(hl) != 1:
-        return probs + [f"{len(hl)} text/html leaves"]
-    got = hl[0].get_content().replace("\r\n", "\n")
+        return probs + [f"{len(hl)} {root} leaves"]
+    got = hl[0].get_content()
+    if isinstance(got, bytes):      # non-text media type (application/xhtml+xml): the stdlib hands back the decoded bytes
+        got = got.decode("utf-8")
+    got = got.replace("\r\n", "\n")
     want = html.replace("\r\n", "\n")
     if got.rstrip("\n") != want.rstrip("\n"):
         probs.append(f"text/html leaf decodes to {got!r}, expected {want!r}")
